@@ -164,6 +164,21 @@ CHECKS["C09"] = dict(
     note=COMMON_NOTE + " Quadrature and finite-difference accuracy are not decided.",
 )
 
+CHECKS["C01"] = dict(
+    level="other",
+    technique="static analysis: reaching-definition provenance of the stored result components, CFG must-pass-through rules for labelling and "
+              "flag consultation, flag typestate (single writer, reset on entry), effect table of stores to long-lived objects, who-constructs rule",
+    text="Decides, for every model, setting and call history, the structural clauses: the four result components stored with a velocity are "
+         "tuple positions 1-4 of one wallPressure evaluation at that very velocity, which is the brentq root of the pressure wrapper on "
+         "the given bracket with xtol=errTol; success is False exactly when the label is ERROR at all 13 labelling sites and every "
+         "returned result was labelled; RUNAWAY only under pressureMax < 0 and without a velocity; every success report in solveWall "
+         "is preceded by reads of both failure flags on every CFG path from the evaluation it relies on (F9, fixed); the flags have "
+         "one writer each and are reset on entry; the manager builds a fresh grid/BoltzmannSolver/EOM per call and caches nothing, and "
+         "the hydrodynamics/thermodynamics layer stores only a closed, reasoned table of attributes.",
+    note=COMMON_NOTE + " That the bracket contains a sign change of the true pressure, convergence of the pressure iteration and bit-identical "
+                       "repeatability of scipy routines are not decided; the no-solution exits of findWallVelocityDetonation are outside rule R01.4.",
+)
+
 NOT_APPLICABLE = {}
 
 ENGINES = [
